@@ -180,6 +180,30 @@ fn check_consts(ctx: &mut Ctx) -> Result<(), Failure> {
             ctx.fail(Failure::new(format!("C15|{}|{}|constant|{}", name, CTORS[ty].name, kind), "documented constants match the field width", format!("{} = {}, expected {}", name, v, want), json!({"k": "consts"})))?;
         }
     }
+    // named code points hold the value of their RFC (all of them in range by construction of the table)
+    for (name, v, want) in dscp_named() {
+        ctx.eval(1);
+        if v != want {
+            ctx.fail(Failure::new(format!("C15|{}|named-code-point|constant|value", name), "named constants of a bounded type hold the code point their RFC assigns", format!("{} = {}, expected {}", name, v, want), json!({"k": "consts"})))?;
+        }
+    }
+    // the registry enum IpDscpKnown: known exactly for the 23 assigned code points, and converting back
+    // (`as u8`, and `IpDscp::from`, which constructs unchecked) gives the same in-range value
+    let assigned: Vec<u64> = dscp_named().iter().filter(|(n, _, _)| n.starts_with("IpDscp::")).map(|(_, _, w)| *w).collect();
+    for v in 0..=63u8 {
+        ctx.eval(1);
+        let r = match catch(|| dscp_known(v)) {
+            Ok(r) => r,
+            Err(p) => return ctx.fail(Failure::new("C15|IpDscpKnown|IpDscp|panic", "panic", p, json!({"k": "consts"}))),
+        };
+        let bad = match r {
+            Ok((a, b)) => a != v as u64 || b != v as u64 || !assigned.contains(&(v as u64)),
+            Err(e) => e != v as u64 || assigned.contains(&(v as u64)),
+        };
+        if bad {
+            ctx.fail(Failure::new("C15|IpDscpKnown|IpDscp|registry-enum-round-trip", "a DSCP value converts to the registry enum exactly when it is an assigned code point, and back to the same in-range value", format!("DSCP {}: {:?} (assigned: {})", v, r, assigned.contains(&(v as u64))), json!({"k": "consts"})))?;
+        }
+    }
     ctx.eval(1);
     let q = qrv_values();
     if q != (0..8).collect::<Vec<u64>>() {
